@@ -475,6 +475,21 @@ func (p *prov) loadFrom(root *ssa.Alloc, path []*types.Var, d int) []string {
 	// address passed to a call that fills it (asn1.Unmarshal(&x), yaml.Unmarshal) or escapes
 	for _, ref := range *root.Referrers() {
 		if ci, ok := ref.(ssa.CallInstruction); ok {
+			// a module function that only keeps or reads the address (no store through it, not handed on) fills nothing
+			if g := ci.Common().StaticCallee(); g != nil && p.c.InModule(g) && g.Blocks != nil {
+				writes := false
+				for i, a := range ci.Common().Args {
+					if a != ssa.Value(root) || i >= len(g.Params) {
+						continue
+					}
+					if writesThrough(g.Params[i], 0) {
+						writes = true
+					}
+				}
+				if !writes {
+					continue
+				}
+			}
 			suf := ""
 			for _, f := range path {
 				suf += "." + f.Name()
@@ -856,3 +871,32 @@ func (p *prov) inFrames(root *ssa.Function, depth int, skip func(*ssa.Function) 
 
 // here: origins of v in the current frame (bindings of enclosing inFrames calls apply).
 func (p *prov) here(v ssa.Value) []string { return uniq(p.origins(v, 0)) }
+
+// writesThrough: the function stores through the pointer parameter (or a field address derived from it), or hands the
+// pointer to another call (which might).
+func writesThrough(v ssa.Value, d int) bool {
+	if d > 4 || v.Referrers() == nil {
+		return false
+	}
+	for _, u := range *v.Referrers() {
+		switch x := u.(type) {
+		case *ssa.Store:
+			if x.Addr == v {
+				return true
+			}
+			// the pointer itself is stored somewhere (kept): not a write through it
+		case *ssa.FieldAddr:
+			if writesThrough(x, d+1) {
+				return true
+			}
+		case *ssa.IndexAddr:
+			if writesThrough(x, d+1) {
+				return true
+			}
+		case ssa.CallInstruction:
+			return true
+		case *ssa.MapUpdate, *ssa.UnOp, *ssa.DebugRef, *ssa.MakeInterface, *ssa.Phi:
+		}
+	}
+	return false
+}
